@@ -19,6 +19,8 @@ struct Outcome {
     model_key: u64,
     live: usize,
     last_class: &'static str,
+    /// the highest layer present equals the configured cap (max_layers - 1)
+    cap_reached: bool,
 }
 
 /// Executes base + ops from scratch on a fresh index; the oracle runs after
@@ -28,6 +30,7 @@ fn run_history(cfg: &Cfg, base: &str, seed: u64, ops: &[Op], check_all: bool) ->
     let mut model_key = 0;
     let mut live = 0;
     let mut last_class = "base";
+    let mut cap_reached = false;
     let result = no_panic(|| {
         let mut w = World::new(cfg, seed)?;
         for op in base_ops(base) {
@@ -45,9 +48,10 @@ fn run_history(cfg: &Cfg, base: &str, seed: u64, ops: &[Op], check_all: bool) ->
         }
         model_key = w.model.key();
         live = w.model.len();
+        cap_reached = !w.model.is_empty() && w.index.stats().max_layer == cfg.max_layers.saturating_sub(1);
         Ok(())
     });
-    Outcome { result, tally, model_key, live, last_class }
+    Outcome { result, tally, model_key, live, last_class, cap_reached }
 }
 
 fn violation(cfg: &Cfg, base: &str, seed: u64, ops: &[Op], class: &str, f: &Fail) -> Violation {
@@ -71,6 +75,7 @@ struct Agg {
     searches: u64,
     short: u64,
     nonempty: u64,
+    cap_reached: u64,
     states: BTreeSet<u64>,
     nontrivial: BTreeSet<u64>,
     violations: Vec<Violation>,
@@ -90,6 +95,7 @@ fn run_item(item: &Item, deadline: std::time::Instant) -> Agg {
         agg.searches += out.tally.searches;
         agg.short += out.tally.short_results;
         agg.nonempty += out.tally.nonempty_results;
+        agg.cap_reached += out.cap_reached as u64;
         match &out.result {
             Ok(()) => {
                 let key = util::fnv64(format!("{label}|{}|{}", ops.len(), out.model_key).as_bytes());
@@ -153,15 +159,22 @@ fn main() {
     let dims_cfgs: Vec<Cfg> = all_cfgs(&all_dims, false).into_iter().filter(|c| !c.reconnect_on_delete).collect();
     let tight = all_cfgs(&[2, 8], false);
     let roomy: Vec<Cfg> = all_cfgs(&[2, 8], true).into_iter().filter(|c| c.max_connections == 4).collect();
+    //  layercap - small max_layers (1, 2; thorough also 3 and scale_factor 3) so that the layer generator's
+    //             upper clamp is actually reached (measured: histories_at_layer_cap) before flush+load
+    let ec = [anda_db_hnsw::DistanceMetric::Euclidean, anda_db_hnsw::DistanceMetric::Cosine];
+    let cap_quick = vhnsw::sut::layer_cap_cfgs(&[2], &ec, &[(1, None), (2, None)]);
+    let cap_thorough = vhnsw::sut::layer_cap_cfgs(&[2, 8], &vhnsw::sut::METRICS, &[(1, None), (2, None), (3, None), (3, Some(3.0)), (4, Some(3.0))]);
     type Stage = (&'static str, Vec<Cfg>, Vec<u64>, Vec<(usize, Vec<&'static str>)>);
     let stages: Vec<Stage> = run.tier.pick(
         vec![
             ("dims", dims_cfgs.clone(), vec![1], vec![(0, vec!["b7"]), (1, vec!["b7"])]),
+            ("layercap", cap_quick.clone(), vec![1], vec![(0, all.clone()), (1, all.clone()), (2, all.clone()), (3, all.clone())]),
             ("main", tight.clone(), vec![1], vec![(0, all.clone()), (1, all.clone()), (2, all.clone()), (3, all.clone())]),
             ("main", tight.iter().filter(|c| c.dim == 2).cloned().collect(), vec![1], vec![(4, vec!["b7"])]),
         ],
         vec![
             ("dims", dims_cfgs.clone(), vec![1, 2], vec![(0, vec!["b4", "b7"]), (1, vec!["b4", "b7"]), (2, vec!["b4", "b7"])]),
+            ("layercap", cap_thorough.clone(), vec![1, 2, 3], (0..=3).map(|d| (d, all.clone())).collect()),
             ("roomy", roomy.clone(), vec![1], (0..=4).map(|d| (d, all.clone())).collect()),
             ("main", tight.clone(), vec![1, 2], (0..=4).map(|d| (d, all.clone())).collect()),
             ("main", tight.clone(), vec![1], vec![(5, all.clone())]),
@@ -196,6 +209,10 @@ fn main() {
                 run.add("evaluations", a.searches);
                 run.add("searches_nonempty", a.nonempty);
                 short_seen |= a.short > 0;
+                if stage == "layercap" {
+                    run.add("layercap_histories", a.histories);
+                    run.add("layercap_histories_at_layer_cap", a.cap_reached);
+                }
                 states.extend(a.states);
                 for k in a.nontrivial {
                     run.distinct(k);
@@ -232,8 +249,8 @@ fn main() {
         "every history of exactly d operations (d and bases: see `completed`) from each base (empty, ids 1-4 inserted, ids 1-7 inserted) over \
          {insert(id,a|b) for ids not in the index (a re-insert when the id was there before; b = a different vector), remove(id) for ids in \
          the index, flush+load}; 7 fixed vectors x 2 variants incl. an exact duplicate, an opposite and a zero vector; x dims {2,8} x 4 \
-         metrics x 2 selection strategies x reconnect_on_delete on/off (thorough: x 2 graph regimes) x declared layer seeds, plus a stage \
-         over EVERY dimension 2..=64 (short histories from the full base; SIMD lane remainder paths); each history is \
+         metrics x 2 selection strategies x reconnect_on_delete on/off (thorough: x 2 graph regimes) x declared layer seeds, plus a stage with small max_layers (1,2; thorough also 3,4 with scale_factor 3) in which the layer cap is really reached \
+         (counter layercap_histories_at_layer_cap), plus a stage over EVERY dimension 2..=64 (short histories from the full base; SIMD lane remainder paths); each history is \
          executed from scratch on the real HnswIndex and after its last operation every stored vector + 3 out-of-distribution queries are \
          searched with k=1..n+1 and compared with the VecModel; states = distinct (configuration, depth, live set + vectors); distinct \
          non-trivial = states with >= 2 live vectors",
